@@ -2,6 +2,7 @@ package nc
 
 import (
 	"fmt"
+	"go/token"
 	"go/types"
 	"sort"
 	"strings"
@@ -446,4 +447,224 @@ func (c *Ctx) inListCoversParam(st *StmtSite) (bool, string) {
 		}
 	}
 	return true, ""
+}
+
+// scannedLocalsReachResult: every column of a reader statement that is scanned into a LOCAL variable (nullable
+// columns, states stored as text, flags) flows on into the value the method returns: through conversions, calls,
+// field reads, phis, into a store to a field of another variable, an append, or a return. A local that is scanned
+// and then dropped means the reader reports the column's zero value whatever is stored (a quote that always reads
+// UNPAID, a proof without its witness).
+func (c *Ctx) scannedLocalsReachResult(rule string, methods ...string) {
+	R := c.R
+	n := 0
+	for _, method := range methods {
+		for _, st := range c.V.Stmts[method] {
+			if st.Scan == nil || st.Dests == nil {
+				continue
+			}
+			f := st.Fn
+			fk := c.P.FuncKey(f)
+			cols := st.SQL.Cols
+			if len(cols) == 1 && cols[0] == "*" && c.V.Schema != nil {
+				if tab := c.V.Schema.Tables[st.SQL.Table]; tab != nil {
+					cols = tab.ColNames()
+				}
+			}
+			for i, dv := range st.Dests {
+				if mi, ok := dv.(*ssa.MakeInterface); ok {
+					dv = mi.X
+				}
+				dest, ok := dv.(*ssa.Alloc)
+				if !ok {
+					continue // scanned straight into a field of the result
+				}
+				col := "?"
+				if i < len(cols) {
+					col = cols[i]
+				}
+				n++
+				R.Check(rule, fk, "column "+col+" scanned into local "+dest.Comment+" reaches the result", c.P.InstrPos(st.Scan), flowsOut(dest),
+					"a column scanned into a local variable is carried into the returned value", "the local is not used for anything the method returns")
+			}
+		}
+	}
+	if n == 0 {
+		// the row scan may sit in a helper that is new on this tree (scanQuote(row)): examine every database/sql Scan
+		// reachable from the reader methods through such helpers
+		for _, method := range methods {
+			for _, t := range c.V.DBImpls {
+				f := c.P.MethodOf(t, method)
+				if f == nil {
+					continue
+				}
+				for _, g := range c.OpFuncs(f) {
+					for _, ci := range Calls(g) {
+						d := c.P.Describe(ci)
+						if d.Static == nil || d.Static.Name() != "Scan" || !strings.HasPrefix(d.Name, "database/sql.") || len(d.Args) != 1 {
+							continue
+						}
+						dests, ok := VarArgs(d.Args[0])
+						if !ok {
+							continue
+						}
+						for _, dv := range dests {
+							if mi, ok := dv.(*ssa.MakeInterface); ok {
+								dv = mi.X
+							}
+							dest, ok := dv.(*ssa.Alloc)
+							if !ok {
+								continue
+							}
+							n++
+							R.Check(rule, c.P.FuncKey(f), "column scanned into local "+dest.Comment+" reaches the result", c.P.InstrPos(ci), flowsOut(dest),
+								"a column scanned into a local variable is carried into the returned value", "the local is not used for anything the method returns")
+						}
+					}
+				}
+			}
+		}
+	}
+	if n == 0 {
+		R.Unresolved(rule, "reader statements with local scan destinations in "+strings.Join(methods, ","), "none found")
+	}
+}
+
+// flowsOut: some value derived from the content of cell is stored into another variable's field / element, appended,
+// passed on in a return, or (being a struct the cell is part of) the cell itself is returned.
+func flowsOut(cell *ssa.Alloc) bool {
+	seen := map[ssa.Value]bool{}
+	var work []ssa.Value
+	push := func(v ssa.Value) {
+		if v != nil && !seen[v] {
+			seen[v] = true
+			work = append(work, v)
+		}
+	}
+	// start: loads of the cell and of its fields
+	var addrs []ssa.Value
+	addrs = append(addrs, cell)
+	for i := 0; i < len(addrs) && i < 64; i++ {
+		refs := addrs[i].Referrers()
+		if refs == nil {
+			continue
+		}
+		for _, r := range *refs {
+			switch y := r.(type) {
+			case *ssa.FieldAddr:
+				if y.X == addrs[i] {
+					addrs = append(addrs, y)
+				}
+			case *ssa.UnOp:
+				if y.Op == token.MUL && y.X == addrs[i] {
+					push(y)
+				}
+			}
+		}
+	}
+	for len(work) > 0 && len(seen) < 512 {
+		v := work[len(work)-1]
+		work = work[:len(work)-1]
+		refs := v.Referrers()
+		if refs == nil {
+			continue
+		}
+		for _, r := range *refs {
+			switch y := r.(type) {
+			case *ssa.Return:
+				return true
+			case *ssa.Store:
+				if y.Val != v {
+					continue
+				}
+				root, _ := addrRoot(y.Addr)
+				if root != ssa.Value(cell) {
+					return true
+				}
+			case *ssa.MapUpdate:
+				return true
+			case *ssa.If, *ssa.DebugRef:
+				// a test only (e.g. .Valid): not a use of the value
+			case *ssa.Call:
+				if bi, ok := y.Call.Value.(*ssa.Builtin); ok && bi.Name() == "append" {
+					return true
+				}
+				push(y)
+			case *ssa.Extract:
+				push(y)
+			case ssa.Value:
+				// conversions, field reads, arithmetic, phis, interface boxing ...
+				if _, isBool := y.Type().Underlying().(*types.Basic); isBool && y.Type().Underlying().(*types.Basic).Kind() == types.Bool {
+					if _, isField := y.(*ssa.Field); !isField {
+						continue // comparison results do not carry the value
+					}
+				}
+				push(y)
+			}
+		}
+	}
+	return false
+}
+
+// readersReturnEveryRow: the list readers hand back every row they scan: the list returned after the row loop is the
+// accumulation (append) of the values filled by the row scan, one per iteration of the rows.Next loop.
+func (c *Ctx) readersReturnEveryRow(rule string, methods ...string) {
+	R := c.R
+	n := 0
+	for _, method := range methods {
+		for _, st := range c.V.Stmts[method] {
+			if st.Scan == nil {
+				continue
+			}
+			f := st.Fn
+			o := c.P.OriginsOf(f)
+			l := o.Loops.InnermostContaining(st.Scan.Block())
+			if l == nil {
+				continue // single-row reader
+			}
+			fk := c.P.FuncKey(f)
+			n++
+			ok, why := false, "no success return after the row loop"
+			for _, r := range o.SuccessReturns() {
+				if len(r.Results) == 0 || l.Blocks[r.Block()] {
+					continue
+				}
+				// only returns that can follow the loop
+				if reach, _ := Reach(Point{l.Header, 0}, PointOf(r), NewCut()); !reach {
+					continue
+				}
+				e := o.Of(r.Results[0])
+				ok = e.K == "acc" && strings.HasPrefix(e.S, "append") && len(e.Args) >= 2 && strings.Contains(e.Args[len(e.Args)-1].String(), "Scan@")
+				why = "returned list is " + short(e.String(), 140)
+				if !ok {
+					break
+				}
+			}
+			// every completed iteration appends: the latch is not reachable from the scan's success edge without the append
+			if ok {
+				cut := NewCut()
+				for _, b := range f.Blocks {
+					for _, in := range b.Instrs {
+						if call, isCall := in.(*ssa.Call); isCall {
+							if bi, isB := call.Call.Value.(*ssa.Builtin); isB && bi.Name() == "append" && l.Blocks[b] {
+								cut.Barriers[in] = true
+							}
+						}
+					}
+				}
+				scanOK := &Cond{Name: "row scanned", Match: func(ft *Fact, _ *Origins) bool {
+					return ft.Kind == "errnil" && ft.Pos && ft.A != nil && ft.A.K == "call" && ft.A.Call == st.Scan
+				}}
+				for e := range o.AcceptEdges(scanOK) {
+					if reach, path := Reach(Point{e.To(), 0}, Point{l.Header, 0}, cut); reach {
+						ok = false
+						why = "the next row can be fetched without the scanned row having been appended: " + c.P.PathString(path)
+					}
+				}
+			}
+			R.Check(rule, fk, "every scanned row is returned", c.P.InstrPos(st.Scan), ok, "the reader returns the list of all rows it scanned (a dropped row reads as 'not spent' / 'not pending' / 'not signed')", why)
+		}
+	}
+	if n == 0 {
+		R.Unresolved(rule, "list readers "+strings.Join(methods, ","), "no row loop found")
+	}
 }
